@@ -39,6 +39,11 @@ class Codec:
         """FIX complaint date-time string (UTC now)."""
         return datetime.utcnow().strftime("%Y%m%d-%H:%M:%S.%f")[:-3]
 
+    @staticmethod
+    def _is_number(text: str) -> bool:
+        """Plain ASCII decimal digits (what int() can take without raising)."""
+        return text.isascii() and text.isdigit() and len(text) <= 18
+
     def _addTag(self, body, t, msg: FIXContainer):
         if msg.is_group(t):
             groups = msg.get_group_list(t)
@@ -195,6 +200,10 @@ class Codec:
             logging.error(f"*** BodyLength missing or not 2nd field *** [{tag}]: {msg}")
             assert silent, "2nd tag must be BodyLength"
             return (None, len(rawmsg), None)
+        elif not self._is_number(value):
+            # garbled length (not plain digits): malformed frame, never an exception
+            assert silent, f"BodyLength is not a number {msg}"
+            return (None, len(rawmsg), None)
         else:
             msg_length += int(value)
 
@@ -218,13 +227,19 @@ class Codec:
                 return (None, len(rawmsg), None)
             tag, value = toks
 
+            if not self._is_number(tag) or (len(tag) > 1 and tag[0] == "0"):
+                # tags on the wire are plain decimal numbers ('abc', '', '+5', '035'
+                #   are garbage): malformed frame, never an exception
+                assert silent, f"incorrect tag {m}"
+                return (None, len(rawmsg), None)
+
             if tag == FTag.CheckSum:
                 cheksum_base = self.SOH.join(msg[:-1])
                 checksum = (sum([ord(i) for i in cheksum_base]) + 1) % 256
 
-                if checksum != int(value):
+                if not self._is_number(value) or checksum != int(value):
                     logging.warning(
-                        "\tCheckSum: %s (INVALID) expecting %s" % (int(value), checksum)
+                        "\tCheckSum: %s (INVALID) expecting %s" % (value, checksum)
                     )
                     assert (
                         silent
